@@ -601,8 +601,14 @@ def main(run):
             for k in range(8):     # eight slices of each search tree (see explore)
                 chunks.append((cond, 2, 3, (k, 8)))
                 chunks.append((cond, 3, 2, (k, 8)))
+    # biggest first: slice 0 of a tree holds the root's deepest alternatives
+    chunks.sort(key=lambda c: (len(c) > 3 and c[3][0] != 0, -c[1], -c[2]))
+    done = 0
     for cid, acc, hung in run_chunks(work, chunks, nproc=run.nproc, case_timeout=120):
         run.acc.merge(acc)
+        done += 1
+        if done % 20 == 0 or done == len(chunks):
+            run.log("chunks", done, "/", len(chunks), "schedules", run.acc.n, "last:", chunks[cid][0]["name"], chunks[cid][1:])
     states = len(run.acc.sets.pop("states", ()))
     trans = len(run.acc.sets.pop("transitions", ()))
     free = {}
